@@ -44,7 +44,7 @@ F('nterm__get_name', r'constexpr const char\* get_name\(\)', 'const char* nterm_
 PRELUDE = r'''
 int vx_thrown;
 typedef const void* vx_val;       /* R13: an opaque C++ value, identified by a ghost id */
-struct source_point { size32_t line; size32_t column; };
+struct source_point { vx_sp_line_t line; vx_sp_col_t column; };   /* member types from the real declaration (R16) */
 struct term_value { vx_val value; struct source_point sp; };
 struct recognized_term { size16_t term_idx; vx_rt_len_t len; };   /* member type from the real declaration (R16) */
 struct parse_options { bool verbose; bool skip_whitespace; bool skip_newline; };
